@@ -486,12 +486,41 @@ def gen_elem_cases(seed, n, start_id=0):
 # ---------------------------------------------------------------------------------------
 # resolveType stream: defineComponent calls with typed setup functions
 ATOM_TYPES = ["string", "number", "boolean", "object", "bigint", "symbol", "null", "any", "unknown", "undefined", "void", "never",
-              "'lit'", "1", "true", "1n", "`t${string}`", "() => void", "new () => Foo", "string[]", "[string, number]",
+              "'lit'", "1", "true", "1n", "`t${string}`", "(() => void)", "(new () => Foo)", "string[]", "[string, number]",
               "{ a: 1 }", "{}", "{ (): void }", "Date", "Map<string, number>", "Set<string>", "WeakMap<object, any>", "Promise<string>",
               "RegExp", "Error", "Array<string>", "Function", "Object", "Record<string, any>", "Partial<{ a: 1 }>", "Readonly<{ a: 1 }>",
               "Uppercase<'a'>", "Parameters<typeof fn>", "InstanceType<typeof Foo>", "NonNullable<string | null>",
               "Exclude<string | number, number>", "Extract<string | number, number>", "Foo", "Imported", "NS.T", "keyof Foo", "typeof fn",
               "T0", "I0", "Arr0[number]", "Tup0[0]", "Tup0[number]", "Obj0['k']", "Obj0[string]", "Obj0['k' | 'j']", "Array<string>[number]"]
+OBJ = {"object", "array", "date", "map", "set", "weakmap", "promise", "regexp", "error"}
+# JavaScript value kinds a type can have; "ANY" = anything; None = outside the property's grammar
+ATOM_KINDS = {
+    "string": {"string"}, "number": {"number"}, "boolean": {"boolean"}, "object": {"object", "array", "date", "map", "set", "regexp", "error"},
+    "bigint": {"bigint"}, "symbol": {"symbol"}, "null": {"null"}, "any": "ANY", "unknown": "ANY", "undefined": {"undefined"},
+    "void": {"undefined"}, "never": set(), "'lit'": {"string"}, "1": {"number"}, "true": {"boolean"}, "1n": {"bigint"},
+    "`t${string}`": {"string"}, "(() => void)": {"function"}, "(new () => Foo)": {"function"}, "string[]": {"array"},
+    "[string, number]": {"array"}, "{ a: 1 }": {"object"}, "{}": "NONNULL", "{ (): void }": {"function"}, "Date": {"date"},
+    "Map<string, number>": {"map"}, "Set<string>": {"set"}, "WeakMap<object, any>": {"weakmap"}, "Promise<string>": {"promise"},
+    "RegExp": {"regexp"}, "Error": {"error"}, "Array<string>": {"array"}, "Function": {"function"}, "Object": None,
+    "Record<string, any>": {"object"}, "Partial<{ a: 1 }>": {"object"}, "Readonly<{ a: 1 }>": {"object"}, "Uppercase<'a'>": {"string"},
+    "Parameters<typeof fn>": {"array"}, "InstanceType<typeof Foo>": {"object"}, "NonNullable<string | null>": {"string"},
+    "Exclude<string | number, number>": {"string"}, "Extract<string | number, number>": {"number"}, "Foo": {"object"},
+    "Imported": None, "NS.T": None, "keyof Foo": None, "typeof fn": None, "T0": {"string", "number"}, "I0": {"object", "function"},
+    "Arr0[number]": {"boolean"}, "Tup0[0]": {"string"}, "Tup0[number]": {"string", "number"}, "Obj0['k']": {"date"},
+    "Obj0[string]": "ANY", "Obj0['k' | 'j']": {"date", "number"}, "Array<string>[number]": {"string"},
+}
+
+
+def kinds_union(a, b):
+    if a is None or b is None:
+        return None
+    if a == "ANY" or b == "ANY":
+        return "ANY"
+    if a == "NONNULL" or b == "NONNULL":
+        return "ANY" if (a != b and ("null" in (a if a != "NONNULL" else b) or "undefined" in (a if a != "NONNULL" else b))) else "NONNULL"
+    return set(a) | set(b)
+
+
 TYPE_PRELUDE = ("class Foo {}\nfunction fn(a: number, b: string) {}\ntype T0 = string | number;\ninterface I0 { a: 1; (): void }\n"
                 "type Arr0 = boolean[];\ntype Tup0 = [string, number];\ntype Obj0 = { k: Date; j: number; m(): void; [x: string]: any };\n")
 PROP_KEYS = ["foo", "bar", "'baz-q'", "qux", "msg", "'onUpdate:x'", "count", "1"]
@@ -519,23 +548,44 @@ class TGen(Gen):
             self.pre.append(text); self.f("decl:before")
 
     def atype(self, d=1):
+        """(type text, kinds, tags): tags name the known-finding ingredients the type contains"""
         r = self.r
         k = r.below(10)
         if d > 0 and k == 0:
-            return self.atype(d - 1) + " | " + self.atype(d - 1)
+            a, ka, ta = self.atype(d - 1); b, kb, tb = self.atype(d - 1)
+            self.f("atype:union")
+            return a + " | " + b, kinds_union(ka, kb), ta | tb
         if d > 0 and k == 1:
-            return "(" + self.atype(d - 1) + ")"
+            a, ka, ta = self.atype(d - 1)
+            return "(" + a + ")", ka, ta
         if d > 0 and k == 2:
             nm = self.fresh("AT")
-            self.decl("type %s = %s;" % (nm, self.atype(d - 1)))
-            return nm
+            a, ka, ta = self.atype(d - 1)
+            self.decl("type %s = %s;" % (nm, a))
+            self.f("atype:alias")
+            return nm, ka, ta
         if d > 0 and k == 3:
-            return self.atype(d - 1) + " & {}"
-        return r.pick(ATOM_TYPES)
+            a, ka, ta = self.atype(d - 1)
+            self.f("atype:inter")
+            if ka is None:
+                return a + " & {}", None, ta
+            if ka in ("ANY", "NONNULL"):
+                return a + " & {}", "NONNULL", ta
+            return a + " & {}", set(ka) - {"null", "undefined"}, ta
+        t = r.pick(ATOM_TYPES)
+        self.f("atom:" + t)
+        tags = set()
+        if t == "1n":
+            tags.add("bigint_lit")
+        if t in ("any", "unknown", "Obj0[string]"):
+            tags.add("any")
+        if t == "{}":
+            tags.add("empty_obj")
+        return t, ATOM_KINDS.get(t), tags
 
     def members(self, M):
         out = []
-        for (key, opt, ty, kind) in M:
+        for (key, opt, ty, kind, *_rest) in M:
             q = "?" if opt else ""
             if kind == "method":
                 out.append("%s%s(): void" % (key, q))
@@ -559,10 +609,12 @@ class TGen(Gen):
                                       "pick", "omit", "index", "chain"]
         op = r.pick(ops)
         plain = [m for m in M if m[3] != "getter"]
-        if op == "partial" and not (M and all(m[1] for m in plain) and len(plain) == len(M)):
+        if op == "partial" and not (M and all(m[1] for m in plain)):
             op = "lit"
         if op == "required" and not (M and all(not m[1] for m in M)):
             op = "lit"
+        if op in ("pick", "omit") and any(m[0].isdigit() for m in M):
+            op = "lit"                    # `'1'` is not a key of `{ 1: … }` in TypeScript
         self.f("enc:" + op)
         if op == "lit":
             return "{ " + self.members(M) + " }"
@@ -597,14 +649,14 @@ class TGen(Gen):
         if op == "paren":
             return "(" + self.enc(M, d - 1) + ")"
         if op == "partial":
-            return "Partial<" + self.enc([(k, r.chance(1, 2), t, kd) for (k, o, t, kd) in M], d - 1) + ">"
+            return "Partial<" + self.enc([(m[0], r.chance(1, 2)) + tuple(m[2:]) for m in M], d - 1) + ">"
         if op == "required":
-            return "Required<" + self.enc([(k, r.chance(1, 2), t, kd) for (k, o, t, kd) in M], d - 1) + ">"
-        extra = [("zextra", False, "number", "prop"), ("'z-other'", True, "string", "prop")]
+            return "Required<" + self.enc([(m[0], r.chance(1, 2)) + tuple(m[2:]) for m in M], d - 1) + ">"
+        extra = [("zextra", False, "number", "prop", {"number"}, []), ("'z-other'", True, "string", "prop", {"string"}, [])]
         if op == "pick":
             if not M:
                 return "{ }"
-            keys = " | ".join("'%s'" % k.strip("'") for (k, _, _, _) in M)
+            keys = " | ".join("'%s'" % m[0].strip("'") for m in M)
             if r.chance(1, 3):
                 kn = self.fresh("K"); self.decl("type %s = %s;" % (kn, keys)); keys = kn
             return "Pick<%s, %s>" % (self.enc(M + extra, d - 1), keys)
@@ -627,7 +679,8 @@ class TGen(Gen):
         for _ in range(n):
             k = keys.pop(r.below(len(keys)))
             kind = r.wpick([(6, "prop"), (1, "method"), (1, "getter")])
-            M.append((k, r.chance(1, 2) if kind != "getter" else False, self.atype(1), kind))
+            tt, kk, tg = self.atype(1)
+            M.append((k, r.chance(1, 2) if kind != "getter" else False, tt, kind, kk if kind != "method" else {"function"}, sorted(tg)))
         return M
 
     def events(self):
@@ -663,41 +716,56 @@ class TGen(Gen):
         return nm, names
 
     def defaults(self, M):
+        """(text, form, {key: (kind-of-default, written text)})"""
         r = self.r
         form = r.below(8)
         self.f("defaults:%d" % form)
+        self.default_info = {"form": "none", "per_key": {}}
         if form <= 1 or not M:
             return ""
         if form == 2:
+            self.default_info = {"form": "dynamic", "per_key": {}}
             return " = dflt"
         items = []
-        for (k, o, t, kind) in M:
+        per = {}
+        for m in M:
+            k = m[0]
+            kk = k.strip("'")
             c = r.below(9)
             if c == 0:
                 continue
             if c == 1:
-                items.append("%s: %s" % (k, r.pick(["1", "'s'", "true", "null"])))
+                v = r.pick(["1", "'s'", "true", "null"])
+                items.append("%s: %s" % (k, v)); per[kk] = ["literal", v]
             elif c == 2:
-                items.append("%s: %s" % (k, r.pick(["fn()", "[1]", "{ a: 1 }", "() => 1", "function () { return 2 }", "foo.bar"])))
+                v = r.pick(["fn()", "[1]", "{ a: 1 }", "() => 1", "function () { return 2 }", "foo.bar"])
+                items.append("%s: %s" % (k, v)); per[kk] = ["fnvalue" if v.startswith("()") or v.startswith("function") else "expr", v]
             elif c == 3 and k.isidentifier():
-                items.append(k)
+                items.append(k); per[kk] = ["shorthand", k]
             elif c == 4:
-                items.append("get %s() { return 1 }" % k)
+                items.append("get %s() { return 1 }" % k); per[kk] = ["getter", ""]
             elif c == 5:
-                items.append("%s() { return 1 }" % k)
+                items.append("%s() { return 1 }" % k); per[kk] = ["method", ""]
             elif c == 6:
-                items.append("async %s() { return 1 }" % k)
+                items.append("async %s() { return 1 }" % k); per[kk] = ["method", "async"]
             elif c == 7:
-                kk = k.strip("'")
-                items.append("'%s': 1" % kk if k.isidentifier() else "%s: 2" % kk if kk.isidentifier() else "['%s']: 3" % kk)
+                if k.isidentifier():
+                    items.append("'%s': 1" % kk)
+                elif kk.isidentifier():
+                    items.append("%s: 1" % kk)
+                else:
+                    items.append("['%s']: 1" % kk)
+                per[kk] = ["literal", "1"]
             else:
-                items.append("['%s']: %s" % (k.strip("'"), r.pick(["4", "fn()"])))
+                v = r.pick(["4", "fn()"])
+                items.append("['%s']: %s" % (kk, v)); per[kk] = ["literal" if v == "4" else "expr", v]
         if r.chance(1, 5):
             items.append("extra: 1")
+        self.default_info = {"form": "static", "per_key": per}
         if form == 3:
-            items.append("...dflt")
+            items.append("...dflt"); self.default_info["form"] = "dynamic"
         if form == 4:
-            items.append("[dyn]: 1")
+            items.append("[dyn]: 1"); self.default_info["form"] = "dynamic"
         return " = { " + ", ".join(items) + " }"
 
     def options_arg(self):
@@ -719,12 +787,17 @@ class TGen(Gen):
         M = self.prop_map()
         pty = self.enc(M, 1 + r.below(3))
         ety, enames = self.events()
-        second = r.wpick([(4, ""), (4, ", ctx: SetupContext<%s>" % ety), (2, ", { emit }: SetupContext<%s>" % ety), (1, ", ctx: Other<%s>" % ety),
-                          (1, ", ctx"), (1, ", ctx: SetupContext")])
-        first = r.wpick([(8, "props: %s%s" % (pty, self.defaults(M))), (1, "{ foo }: %s" % pty), (1, "props"), (1, "[a]: %s" % pty)])
+        second_kind = r.wpick([(4, "none"), (4, "ctx"), (2, "destructured"), (1, "other"), (1, "untyped"), (1, "noargs")])
+        second = {"none": "", "ctx": ", ctx: SetupContext<%s>" % ety, "destructured": ", { emit }: SetupContext<%s>" % ety,
+                  "other": ", ctx: Other<%s>" % ety, "untyped": ", ctx", "noargs": ", ctx: SetupContext"}[second_kind]
+        first_kind = r.wpick([(8, "typed"), (1, "destructured"), (1, "untyped"), (1, "array")])
+        self.default_info = {"form": "none", "per_key": {}}
+        first = {"typed": lambda: "props: %s%s" % (pty, self.defaults(M)), "destructured": lambda: "{ foo }: %s" % pty,
+                 "untyped": lambda: "props", "array": lambda: "[a]: %s" % pty}[first_kind]()
         body = r.pick(["() => null", "{ return () => <div>{1}</div> }", "null"])
-        setup = r.wpick([(6, "(%s%s) => %s" % (first, second, body)), (3, "function (%s%s) { return null }" % (first, second)),
-                         (1, "async (%s%s) => null" % (first, second)), (1, "{ setup() {} }")])
+        setup_kind = r.wpick([(6, "arrow"), (3, "function"), (1, "async"), (1, "object")])
+        setup = {"arrow": "(%s%s) => %s" % (first, second, body), "function": "function (%s%s) { return null }" % (first, second),
+                 "async": "async (%s%s) => null" % (first, second), "object": "{ setup() {} }"}[setup_kind]
         oa = self.options_arg()
         args = setup if oa is None else setup + ", " + oa
         if r.chance(1, 12):
@@ -760,8 +833,10 @@ class TGen(Gen):
                 lines += self.post
             else:
                 lines += self.pre + [stmt] + self.post
-        truth = {"props": [[k.strip("'"), (not o) if kind != "getter" else True] for (k, o, t, kind) in M], "emits": enames,
-                 "augmentable": prov == "named"}
+        truth = {"props": [[m[0].strip("'"), (not m[1]) if m[3] != "getter" else True, sorted(m[4]) if isinstance(m[4], set) else m[4], m[3], m[2], m[5]] for m in M],
+                 "emits": enames, "augmentable": prov == "named" and args != "", "prov": prov,
+                 "first": first_kind, "second": second_kind, "setup": setup_kind, "optarg": oa, "spreadargs": "...rest" in args,
+                 "declkind": dk, "defaults": getattr(self, "default_info", None), "getter_in_partial": ("enc:partial" in self.feat and any(m[3] == "getter" for m in M))}
         return "\n".join(lines) + "\n", truth
 
 
